@@ -355,6 +355,13 @@ def run_task(task):
 
 
 def digest_slice(seed):
+    try:
+        return _digest_slice(seed)
+    except corrupt.BaseNotWritable:
+        return "base-object-not-writable"
+
+
+def _digest_slice(seed):
     from ..engine import new_partial
     part = new_partial()
     run_msg_base(sub_seed(seed, ID, "msg", 0), "quick", part, directed=False)
